@@ -206,45 +206,6 @@ end NeoModel.C07
 
 namespace NeoModel.C07
 open NeoModel NeoModel.Fees NeoModel.Admission
-open NeoModel.Wire (varUintSize)
-
-/-! ## 4. what is packed is a prefix of the pool within the limits -/
-
-/-- **packing_valid_partial.** `ApplyPolicyToTxSet` returns a prefix of the pool (in pool order), at most
-MaxTransactionsPerBlock long, whose system fees are within MaxBlockSystemFee and for which
-`overhead + varsize(count) + Σ sizes ≤ MaxBlockSize`, where `overhead` is the size of the block without
-transactions (header incl. `PrevStateRoot` when StateRootInHeader, default block witness).
-
-Partial with respect to the statement's last sentence: "… is accepted by the ledger after being serialised
-and parsed again", i.e. `addBlock s (decode (encode (mkBlock (applyPolicy pool)))) = ok`, needs the block model
-of C06 and the codecs of C17; here it is covered by the `proposal` stream (tie + search on the real code:
-wire round trip, backup-side checks and AddBlock on a replica) only. That `overhead` is the real size of the
-empty block is tied by the same stream (the oracle measures the encoded block); before fix 2cbe22b it omitted
-the 32 bytes of `PrevStateRoot` and the stream's boundary-directed cases found blocks above MaxBlockSize. -/
-theorem packing_valid_partial (cfg : PackCfg) (txs : List (Nat × Nat)) :
-    applyPolicy cfg txs <+: txs
-    ∧ (cfg.maxTx ≠ 0 → (applyPolicy cfg txs).length ≤ cfg.maxTx)
-    ∧ (applyPolicy cfg txs = [] ∨
-        (cfg.overhead + varUintSize (applyPolicy cfg txs).length + sizes (applyPolicy cfg txs) ≤ cfg.maxBlockSize
-          ∧ fees (applyPolicy cfg txs) ≤ cfg.maxBlockSysFee)) := by
-  rw [applyPolicy_eq]
-  have hp := packLoop_prefix cfg (capped cfg txs) (cfg.overhead + varUintSize (capped cfg txs).length) 0
-  refine ⟨List.IsPrefix.trans hp (capped_prefix cfg txs), ?_, ?_⟩
-  · intro h
-    exact Nat.le_trans hp.length_le (capped_length cfg txs h)
-  · rcases packLoop_bounds cfg (capped cfg txs) (cfg.overhead + varUintSize (capped cfg txs).length) 0 with h0 | ⟨h1, h2⟩
-    · left; exact h0
-    · right
-      have := varUintSize_mono hp.length_le
-      constructor <;> omega
-
--- non-vacuity: a pool of four, the third breaks the size limit
-example : applyPolicy ⟨10, 1000, 100, 700⟩ [(100, 1), (100, 2), (150, 3), (10, 4)] = [(100, 1), (100, 2)] := by decide
-
-end NeoModel.C07
-
-namespace NeoModel.C07
-open NeoModel NeoModel.Fees NeoModel.Admission
 open NeoModel.Generated.FeeConsts
 
 /-! ### non-vacuity of `threshold_exact` / `admit_sound`: a concrete chain, pool and single-signature transaction -/
@@ -283,22 +244,58 @@ example : admit exChain exPool { exTx with netFee := 1183520 } = none
   simp only [List.map_cons, List.map_nil, hfee] at h
   exact ⟨h.1, h.2 1183519 (by decide)⟩
 
+/-- and `admit_sound` applies to it: e.g. its witness verified within the fee. -/
+example : ∃ gs, AllVerify exChain ((exTx.signers).map (·.wit)) gs ∧ 200 * 1000 + 0 + gs.sum ≤ 1183520 :=
+  (admit_sound exChain exPool { exTx with netFee := 1183520 } (by simp [exTx])
+    (by intro f hf; simp [exTx] at hf) (by decide)).2.2.1
+
 end NeoModel.C07
+
+namespace NeoModel.C07
+open NeoModel NeoModel.Fees NeoModel.Admission
+open NeoModel.Wire (varUintSize)
+
+/-! ## 4. what is packed is a prefix of the pool within the limits -/
+
+/-- **packing_valid_partial.** `ApplyPolicyToTxSet` returns a prefix of the pool (in pool order), at most
+MaxTransactionsPerBlock long, whose system fees are within MaxBlockSystemFee and for which
+`overhead + varsize(count) + Σ sizes ≤ MaxBlockSize`, where `overhead` is the size of the block without
+transactions (header incl. `PrevStateRoot` when StateRootInHeader, default block witness).
+
+Partial with respect to the statement's last sentence: "… is accepted by the ledger after being serialised
+and parsed again", i.e. `addBlock s (decode (encode (mkBlock (applyPolicy pool)))) = ok`, needs the block model
+of C06 and the codecs of C17; here it is covered by the `proposal` stream (tie + search on the real code:
+wire round trip, backup-side checks and AddBlock on a replica) only. That `overhead` is the real size of the
+empty block is tied by the same stream (the oracle measures the encoded block); before fix 2cbe22b it omitted
+the 32 bytes of `PrevStateRoot` and the stream's boundary-directed cases found blocks above MaxBlockSize. -/
+theorem packing_valid_partial (cfg : PackCfg) (txs : List (Nat × Nat)) :
+    applyPolicy cfg txs <+: txs
+    ∧ (cfg.maxTx ≠ 0 → (applyPolicy cfg txs).length ≤ cfg.maxTx)
+    ∧ (applyPolicy cfg txs = [] ∨
+        (cfg.overhead + varUintSize (applyPolicy cfg txs).length + sizes (applyPolicy cfg txs) ≤ cfg.maxBlockSize
+          ∧ fees (applyPolicy cfg txs) ≤ cfg.maxBlockSysFee)) := by
+  rw [applyPolicy_eq]
+  have hp := packLoop_prefix cfg (capped cfg txs) (cfg.overhead + varUintSize (capped cfg txs).length) 0
+  refine ⟨List.IsPrefix.trans hp (capped_prefix cfg txs), ?_, ?_⟩
+  · intro h
+    exact Nat.le_trans hp.length_le (capped_length cfg txs h)
+  · rcases packLoop_bounds cfg (capped cfg txs) (cfg.overhead + varUintSize (capped cfg txs).length) 0 with h0 | ⟨h1, h2⟩
+    · left; exact h0
+    · right
+      have := varUintSize_mono hp.length_le
+      constructor <;> omega
+
+-- non-vacuity: a pool of four, the third breaks the size limit
+example : applyPolicy ⟨10, 1000, 100, 700⟩ [(100, 1), (100, 2), (150, 3), (10, 4)] = [(100, 1), (100, 2)] := by decide
+
+end NeoModel.C07
+
 
 namespace NeoModel.C07
 
 /-! ## 5. what comes from the wire is well-formed -/
 open NeoModel NeoModel.Fees NeoModel.Admission
 open NeoModel.Generated.FeeConsts
-
-theorem allDistinct_nodup : ∀ (l : List Nat), allDistinct l = true → l.Nodup := by
-  intro l
-  induction l with
-  | nil => intro _; exact List.nodup_nil
-  | cons a l ih =>
-    intro h
-    simp only [allDistinct, Bool.and_eq_true, Bool.not_eq_true', List.contains_eq_mem, decide_eq_false_iff_not] at h
-    exact List.nodup_cons.mpr ⟨h.1, ih h.2⟩
 
 /-- **admit_wellformed.** What is admitted from the wire is well-formed: version 0, between 1 and 16 signers,
 signers + attributes ≤ 16, no account signs twice, at most one attribute of each type other than Conflicts,
